@@ -49,8 +49,9 @@ def run(ctx):
     targets = {"iso-schema": gc.Target("C30", "iso-base", "iso-schema"),
                "iso-extension": gc.Target("C30", "iso-ext", "iso-extension")}
     violations = []
+    known = {k["signature"] for k in runner.load_known() if k.get("property") == "C30"}
     for mode, rep in sorted(reports.items()):
-        violations += gc.violations_from(targets[mode], rep)
+        violations += gc.violations_from(targets[mode], rep, known=known)
     harness = [v for v in violations if v["rule"] == "harness"]
     if harness:
         raise runner.Inconclusive("reference implementation disagrees with the construction oracle: "
